@@ -119,7 +119,42 @@ def report_pairs(report, acl_lines):
 
 BASE = dict(tid=0, exc="", ret_int=0, ret_num=[0, 0], flag=False, plat="", s=[0, 0], d=[0, 0], prefix="", perm=[], idx=0,
             skip=[], pairs=[], typ="", lines_distinct=True, same_as_shading_before=True, expect_empty=False, twin_text_equal=True,
-            twin_data_equal=True, shared_mutables=0, recorded=False)
+            twin_data_equal=True, shared_mutables=0, recorded=False, has_want=False, want=[])
+
+def member_line(text, plat):
+    """the ACE spelling of an address as a line of an address-group section (format conversion only); None when the platform's
+    group grammar cannot say it"""
+    from harness.c13 import is_low_run
+    t = text.split()
+    if t[0] == "host":
+        return text
+    if t == ["any"]:
+        return "0.0.0.0/0" if plat == "nxos" else None
+    if len(t) == 1 and "/" in t[0]:
+        return text if plat == "nxos" else None
+    if len(t) == 2:
+        if plat == "nxos":
+            return text
+        mask = lex.ip_bits(t[1])
+        if not is_low_run(mask) or sum(mask) == 32:
+            return None
+        return f"{t[0]} {lex.bits_ip([1 - b for b in mask])}"
+    return None
+
+
+def config_text(job):
+    """a device configuration holding the job's groups and its ACL (None when some member cannot be written as a group line)"""
+    plat, out = job["plat"], []
+    for name, mems in job.get("groups", {}).items():
+        lines = [member_line(m, plat) for m in mems]
+        if any(x is None for x in lines):
+            return None
+        out.append((f"object-group ip address {name}" if plat == "nxos" else f"object-group network {name}"))
+        out += [" " + x for x in lines]
+    out.append(job["header"])
+    out += [" " + x for x in job["lines"]]
+    return "\n".join(out) + "\n"
+
 
 def exec_history(job):
     from cisco_acl import Acl, Ace, Remark, Address
@@ -130,13 +165,32 @@ def exec_history(job):
     base = dict(BASE, tid=job["tid"])
     e = dict(base, i=0, act="New")
     try:
-        acl = Acl("\n".join([job["header"]] + job["lines"]), group_by=job.get("group_by", ""), note=job.get("note", ""), **kw)
+        cfg_text = config_text(job) if job.get("attach") == "acls" else None
+        if cfg_text is not None:
+            # the list comes out of cisco_acl.acls(configuration): the LIBRARY attaches the members of the configured groups;
+            # the event states which members the configuration gives every entry (token lists, read by the specification)
+            import cisco_acl
+            got = cisco_acl.acls(cfg_text, group_by=job.get("group_by", ""), **kw)
+            if len(got) != 1:
+                return []
+            acl = got[0]
+            acl.note = job.get("note", "")
+            e["has_want"] = True
+            e["want"] = []
+            for x in leaves_of(acl):
+                if type(x).__name__ == "Ace":
+                    e["want"].append([[lex.lex(m) for m in job["groups"].get(a.addrgroup, [])] if a.type == "addrgroup" else []
+                                      for a in (x.srcaddr, x.dstaddr)])
+                else:
+                    e["want"].append([[], []])
+        else:
+            acl = Acl("\n".join([job["header"]] + job["lines"]), group_by=job.get("group_by", ""), note=job.get("note", ""), **kw)
         # attach members of named address groups and notes (user-supplied annotations)
         k = 0
         for x in leaves_of(acl):
             if type(x).__name__ == "Ace":
                 for a in (x.srcaddr, x.dstaddr):
-                    if a.type == "addrgroup" and a.addrgroup in job.get("groups", {}):
+                    if cfg_text is None and a.type == "addrgroup" and a.addrgroup in job.get("groups", {}):
                         # the way cisco_acl.acls() attaches members: Address objects of the ACL's platform and version
                         mem_objs = [Address(m, platform=job["plat"], version=job["ver"]) for m in job["groups"][a.addrgroup]]
                         if job.get("attach") == "append":     # exactly what acls() does: append to the live member list
@@ -483,7 +537,7 @@ def make_history(rng, tid, weights, nops=None, plat=None, **seedkw):
             m0 = rng.choice(gdict[name])
             alt = {"host " + m0.split()[0]: None} if m0.endswith(" 0.0.0.0") else {}
             gdict[name] = gdict[name] + [rng.choice(list(alt) + [m0])]
-    return dict(tid=tid, plat=plat, ver=ver, vmajor=vm, header=header, lines=lines, groups=gdict, attach=rng.choice(["set", "append"]),
+    return dict(tid=tid, plat=plat, ver=ver, vmajor=vm, header=header, lines=lines, groups=gdict, attach=rng.choice(["set", "append", "acls"]),
                 max_ncwb=rng.choice([16, 16, 16, 20, 8, 30]),
                 group_by=rng.choice(["", "", "= "]) if seedkw.get("headings", True) else "", notes=rng.random() < 0.5,
                 port_nr=rng.random() < 0.3, protocol_nr=rng.random() < 0.3, ops=ops, origin="random-history")
